@@ -1,8 +1,8 @@
 (* Props/C10.v — Output records are complete, never interleaved, carry exactly the written bytes.
    Only statements.  Model: Async/Conn.v (StreamWriter::poll_write driven by write_all = writer_write_all /
    write_slices; Request::poll_output), Async/ConnWrites.v (vocabulary: stream_records, chunks, rec_of, io_rel).
-   The multi-writer lock discipline (Async/Writer.v) is decided by the correspondence check; see DESIGN.md. *)
-From FV Require Import Base.Bytes Gen.Generated Codec.Header Parser.StreamModel Parser.AbsStream Async.Conn Async.ConnWrites.
+   Several writers sharing the lock: Async/Writer.v, proofs Async/WriterProofs.v (second part of this file). *)
+From FV Require Import Base.Bytes Gen.Generated Codec.Header Parser.StreamModel Parser.AbsStream Async.Conn Async.ConnWrites Async.Writer Async.WriterTargets Async.WriterProofs.
 
 (* however the transport splits or delays the vectored write of one record (any accept sizes, Pending at
    any call, native vectored write or first-slice fallback), the bytes reaching the client are exactly
@@ -62,3 +62,32 @@ Proof. exact poll_output_spec. Qed.
 Example C10_example :
   stream_records RT_Stdout 1 [104; 105] = [1; 6; 0; 1; 0; 2; 6; 0; 104; 105; 0; 0; 0; 0; 0; 0].
 Proof. reflexivity. Qed.
+
+(* ==== pinned from the proof files (tools/write_props.py) ==== *)
+
+(* ---- several writers + the request's own reply flushing on one connection (Async/Writer.v) ----  MAIN: for
+   EVERY poll order, number of writers, data, transport write script and client input: the log is a
+   concatenation of COMPLETE lock tenures (one whole record of one writer, or one whole flush of parser
+   replies) followed by the part of the current holder's tenure; per writer, payloads in log order ++ record in
+   progress ++ unwritten data = the data it was given; a writer not holding the lock has written nothing of its
+   record in progress *)
+Theorem C10_writers_exclusive :
+  writers_exclusive_stmt.
+Proof. exact writers_exclusive. Qed.
+
+(* all writers done, none failed: the log is exactly a sequence of complete tenures carrying every writer's
+   data *)
+Theorem C10_writers_complete :
+  writers_complete_stmt.
+Proof. exact writers_complete. Qed.
+
+(* a writer polled while someone else holds the lock changes nothing *)
+Theorem C10_writer_waits :
+  writer_waits_stmt.
+Proof. exact writer_waits. Qed.
+
+(* the request's flush polled while a writer holds the lock changes nothing *)
+Theorem C10_request_waits :
+  request_waits_partial_stmt.
+Proof. exact request_waits_partial. Qed.
+
